@@ -392,7 +392,7 @@ def bytes_to_int(b, byteorder="big", signed=False):
     b = SymBytes.lift(b)
     c = core.cur()
     L = b.length
-    if isinstance(L, int) and L <= 4:
+    if isinstance(L, int) and L <= getattr(c, "exact_os2ip", 4):
         if L == 0:
             return 0
         acc = None
